@@ -43,6 +43,8 @@ def rand_dir(rng, depth):
             n = rng.choice(DIRN)
             if n not in entries:
                 entries[n] = ['d', n, rand_dir(rng, depth - 1)]
+                if rng.random() < 0.12:
+                    entries[n].append('link')        # a symbolic link to a directory elsewhere: walked like a directory
     return list(entries.values())
 
 
